@@ -274,10 +274,17 @@ fn check_model<X: Ck>(w: &M4<X>, eye: [X; 3], target: [X; 3], up: [X; 3], d: X, 
 }
 
 fn check_inverse<X: Ck>(a: &M4<X>, an: &str, b: &M4<X>, bn: &str, tol: f64) -> Fail {
+    check_inverse2(a, an, b, bn, tol, tol)
+}
+
+/// `tol_lin` for the linear part and the last row (numbers of size 1), `tol_pos` for the translation
+/// column (numbers of the size of the scene)
+fn check_inverse2<X: Ck>(a: &M4<X>, an: &str, b: &M4<X>, bn: &str, tol_lin: f64, tol_pos: f64) -> Fail {
     for (p, pn) in [(mm(a, b), format!("{}*{}", an, bn)), (mm(b, a), format!("{}*{}", bn, an))] {
         for i in 0..4 {
             for j in 0..4 {
                 let e = if i == j { X::one() } else { X::zero() };
+                let tol = if j == 3 && i < 3 { tol_pos } else { tol_lin };
                 if !p[i][j].near(e, tol) {
                     return Some(("not_inverse_of_each_other", format!("{} = {:?} is not the identity (entry ({},{}))", pn, p, i, j)));
                 }
@@ -561,6 +568,18 @@ fn gen_float_cam<T: Fl>(rng: &mut Rng) -> ([T; 3], [T; 3], [T; 3]) {
             let dirv = r3(rng, 1.0);
             (e, [e[0] + dirv[0] * dd, e[1] + dirv[1] * dd, e[2] + dirv[2] * dd], r3(rng, s))
         }
+        8 | 9 => {
+            // the whole scene in astronomical or microscopic units (added after seeded change C09_M):
+            // eye-target distances from 1e-15 to 1e15 in f32 (1e-100 .. 1e100 in f64), whose squares
+            // and fourth powers leave the range of "ordinary" numbers long before the inputs do
+            let span = if T::EPS > 1e-10 { 15.0 } else { 100.0 };
+            let s = 10f64.powf(rng.f64_in(-span, span));
+            let e = r3(rng, 10.0 * s);
+            let dirv = r3(rng, 1.0);
+            let dd = s * rng.f64_in(0.5, 20.0);
+            let us = *rng.pick(&[0.1, 1.0, 10.0]);
+            (e, [e[0] + dirv[0] * dd, e[1] + dirv[1] * dd, e[2] + dirv[2] * dd], r3(rng, us))
+        }
         _ => {
             let s = *rng.pick(&[0.1, 1.0, 10.0]);
             (r3(rng, 10.0), r3(rng, 10.0), r3(rng, s))
@@ -585,7 +604,9 @@ fn look_float_case<T: Fl, M: Look<T>>(sub: &mut Sub, cfg: &Config, idx: u64, sub
     let ul = norm3(up);
     for kind in [ViewLh, ViewRh, ModelLh, ModelRh] {
         let api = kind.api();
-        if !(d >= 0.01) || !(ul >= 1e-12) {
+        // the working range: squares of the distance must be normal numbers of the type
+        let (dmin, dmax) = if T::EPS > 1e-10 { (1e-17, 1e17) } else { (1e-140, 1e140) };
+        if !(d >= dmin && d <= dmax) || !(ul >= 1e-12) {
             sub.saw(api);
             sub.inconclusive("outside_domain:eye_equals_target_or_zero_up");
             continue;
@@ -600,7 +621,9 @@ fn look_float_case<T: Fl, M: Look<T>>(sub: &mut Sub, cfg: &Config, idx: u64, sub
             sub.inconclusive("ill_conditioned:up_nearly_parallel_to_view_direction");
             continue;
         }
-        let scale = 1.0 + norm3(eye) + norm3(target);
+        // positions are judged relative to the size of the scene (no absolute term: a microscopic scene
+        // must be as accurate, relatively, as an ordinary one)
+        let scale = norm3(eye) + norm3(target) + d;
         let tol = Tol { rot, pos: rot * scale, up_len: ul };
         let Some(mt) = call::<T, M>(sub, cfg, idx, api, &ty, &inputs, || M::look(kind, v3(eye_t), v3(target_t), v3(up_t))) else { continue };
         let conv = |m: &M4<T>| {
@@ -625,7 +648,7 @@ fn look_float_case<T: Fl, M: Look<T>>(sub: &mut Sub, cfg: &Config, idx: u64, sub
             let vk = kind.view_of();
             if let Ok(view) = guarded(|| M::look(vk, v3(eye_t), v3(target_t), v3(up_t))) {
                 sub.saw(vk.api());
-                res = check_inverse(&m, "model", &conv(&raw(&view)), "view", 8.0 * tol.pos);
+                res = check_inverse2(&m, "model", &conv(&raw(&view)), "view", 8.0 * tol.rot, 8.0 * tol.pos);
             }
         }
         let mut h = H64::new();
